@@ -698,6 +698,20 @@ def probes(rng, tier):
     return out
 
 
-LEVEL_TEXT = 'see notes/C08.md'
-LEVEL_NOTE = ''
+LEVEL_TEXT = ('Proof: on a deep embedding of functional arithmetic (18 node classes: LpNorm p=1,2,inf, unit-ball indicators, '
+              'L2NormSquared, Constant/Zero, IndicatorZero, Huber, QuadraticForm(scaling), Left/Right scalar and vector '
+              'multiples, sums, translation, quadratic perturbation, infimal convolution, default conjugate, Bregman distance, '
+              'separable sum) Coq proves by structural induction, for EVERY tree, dimension, positive weighting, x, y and sigma > 0: '
+              '(1) f(x) + f.convex_conj(y) >= <x,y> for the conjugate TREE that the convex_conj rules build, whenever both values '
+              'can be evaluated; (2) the Moreau decomposition prox_{sigma f}(x) + sigma prox_{f*/sigma}(x/sigma) = x whenever both '
+              'proximals exist (LpNorm(inf)/l1-ball pair excluded: sort-based projection, validated only). The model '
+              '(values, conjugate trees incl. scalar merging and the is_linear dispatch, proximals, gradients, exception classes) '
+              'is tied to /repo by an in-Coq correspondence on random trees (class tree of f*, f** and all values compared). '
+              'Equality at the gradient and f** = f are validated by the correspondence and by probes, not yet theorems; '
+              'KL pairs, GroupL1, NuclearNorm, general-p norms, matrix QuadraticForm are probed only.')
+LEVEL_NOTE = ('Side conditions of the theorems (wf, D) are spelled out in Props.v/Rules.v/ProxRules.v: positive left scalars, '
+              'non-zero right scalars/vectors, a >= 0, gamma > 0, no affine QuadraticPerturb of a functional flagged linear. '
+              'Exact arithmetic (rounding and the (1 +- 10 eps) guards are outside; tolerance 1e-9). np.sqrt enters as a function '
+              'with its defining property. Two open findings: QuadraticForm.convex_conj for non-self-adjoint operators violates '
+              'Fenchel-Young; Huber cannot be evaluated on array-weighted spaces. Axioms: classical reals + funext as printed.')
 TECHNIQUE = 'Coq proof by structural induction on functional expression trees + in-Coq differential correspondence'
